@@ -256,6 +256,18 @@ func runC13(seed int64, n int, dir string, tier string) *Report {
 			}); pv != nil {
 				rep.Fail(Failure{What: "Equal(nil) panicked", Detail: fmt.Sprint(pv), Input: map[string]any{"a": graphops.PJ(la)}})
 			}
+			// the same set of roots with other multiplicities is another list (and the answer is the same both ways)
+			if len(la.Nodes) >= 2 {
+				x, y := la.Nodes[0].Id, la.Nodes[1].Id
+				l1, l2 := cloneListExact(la), cloneListExact(la)
+				l1.RootElements = [][]string{{x, x, y}, {x, x}, {x, y, x, y}}[i%3]
+				l2.RootElements = [][]string{{y, x, y}, {x, y}, {x, x, x, y}}[i%3]
+				rep.OracleEvals++
+				e12, e21 := listCase(l1, l2, "roots-multiplicity"), listCase(l2, l1, "roots-multiplicity")
+				if (e12 || e21) && x != y {
+					rep.Fail(Failure{What: "NodeList.Equal does not discriminate: lists whose root elements differ in multiplicity compare equal (one way or both)", Detail: fmt.Sprintf("%v vs %v: %v / %v", l1.RootElements, l2.RootElements, e12, e21), Input: map[string]any{"a": graphops.PJ(l1), "b": graphops.PJ(l2)}})
+				}
+			}
 			lo := g.NodeList(shp)
 			listCase(la, lo, "unrelated")
 			if la.Equal(lo) != lo.Equal(la) {
